@@ -931,6 +931,11 @@ def s_acc(ctx, texts, trees=(), on_line=None):
 HEAP_CLASSES = ['Identifier', 'IdentifierList', 'Parenthesis', 'Operation', 'Comparison', 'Function', 'Where', 'Comment']
 
 
+def heap_tt(o):
+    """the `ttype` attribute as printed by the driver's `heapt` command (`-` = None)"""
+    return '-' if o.ttype is None else '.'.join(str(o.ttype).split('.')[1:])
+
+
 def heap_script(rng):
     """(leaf values, ops): ops are chosen against a shadow of the real objects so that most calls are valid"""
     from sqlparse import sql, tokens as T
@@ -941,6 +946,7 @@ def heap_script(rng):
     objs = list(leaves) + [stmt]
     ident = {id(o): i for i, o in enumerate(objs)}
     ops, results = [], []
+    with_t = rng.random() < 0.4
     for _ in range(rng.randint(1, 8)):
         groups = [i for i, o in enumerate(objs) if o.is_group]
         self_i = rng.choice(groups) if rng.random() < 0.95 else rng.randrange(len(objs))
@@ -956,6 +962,20 @@ def heap_script(rng):
         else:
             start = ln + rng.randint(0, 2)
             stop = start
+        if with_t and rng.random() < 0.25:
+            # `tlist[idx].ttype = T.…` (what group_operator's post step does)
+            idx = rng.randrange(ln) if ln and rng.random() < 0.9 else ln + rng.randint(0, 2)
+            tname = rng.choice(['Operator', 'Keyword.DML', 'Name'])
+            ops.append('t:%d:%d:%s' % (self_i, idx, tname))
+            try:
+                tt = T
+                for part in tname.split('.'):
+                    tt = getattr(tt, part)
+                me[idx].ttype = tt
+                results.append('T')
+            except Exception as e:
+                results.append(type(e).__name__)
+            continue
         incl = rng.random() < 0.7
         ext = rng.random() < 0.5
         cls = rng.choice(HEAP_CLASSES)
@@ -979,8 +999,8 @@ def heap_script(rng):
             c = type(o).__name__
         else:
             k, c = 'L', 'TokenList'
-        dump.append('%d:%s:%s:%s:%s' % (i, p, k, c, hv(o.value)))
-    line = 'heap ' + ' '.join(hv(v) for v in vals) + ' # ' + ' '.join(ops)
+        dump.append('%d:%s:%s:%s:%s' % (i, p, k, c, hv(o.value)) + (':' + heap_tt(o) if with_t else ''))
+    line = ('heapt ' if with_t else 'heap ') + ' '.join(hv(v) for v in vals) + ' # ' + ' '.join(ops)
     return line, 'ok ' + ' '.join(results) + ' | ' + ' '.join(dump), objs
 
 
@@ -996,7 +1016,19 @@ def heap_impl(line):
     objs = list(leaves) + [stmt]
     ident = {id(o): i for i, o in enumerate(objs)}
     results = []
+    with_t = line.split()[0] == 'heapt'
     for w in ws[k + 1:]:
+        if w.startswith('t:'):
+            _, a, b, tname = w.split(':')
+            try:
+                tt = T
+                for part in tname.split('.'):
+                    tt = getattr(tt, part)
+                objs[int(a)][int(b)].ttype = tt
+                results.append('T')
+            except Exception as ex:
+                results.append(type(ex).__name__)
+            continue
         a, c, b, e, i_, x = w.split(':')
         try:
             me = objs[int(a)]
@@ -1024,13 +1056,14 @@ def heap_impl(line):
                 problems.append('cached value of %d is %r, its text is %r' % (i, o.value, str(o)))
         else:
             kk, c = 'L', 'TokenList'
-        dump.append('%d:%s:%s:%s:%s' % (i, p, kk, c, hv(o.value)))
+        dump.append('%d:%s:%s:%s:%s' % (i, p, kk, c, hv(o.value)) + (':' + heap_tt(o) if with_t else ''))
     return 'ok ' + ' '.join(results) + ' | ' + ' '.join(dump), problems
 
 
 def heap_nonempty_slices(line):
     ws = line.split()
-    return all(int(w.split(':')[2]) < int(w.split(':')[3]) + int(w.split(':')[4]) for w in ws[ws.index('#') + 1:])
+    return all(int(w.split(':')[2]) < int(w.split(':')[3]) + int(w.split(':')[4]) for w in ws[ws.index('#') + 1:]
+               if not w.startswith('t:'))
 
 
 def s_heap(ctx, n):
